@@ -65,8 +65,11 @@ def compile_both(mods, requested):
     for backend in ('json', 'pysnmp'):
         parser = env.shared_parser('smiV2')
         parser.reset()
-        out[backend] = env.compile_set(texts, requested, codegen=backend, dialect=parser)
+        out[backend] = env.compile_set(texts, requested, codegen=backend, dialect=parser, source=_SOURCE[0])
     return texts, out
+
+
+_SOURCE = ['memory']   # 'files' / 'zip': the texts go through the real FileReader / ZipReader (family defaults-from-files)
 
 
 def exp_constraints(sub):
@@ -259,7 +262,7 @@ DEFVALS = {
             ('lit', "'00'H")],
     'enum': [('id', 'on'), ('id', 'off'), ('id', 'auto-mode'), ('num', 1), ('num', 0)],
     'octets': [('str', 'abc'), ('str', ''), ('str', 'two words'), ('str', 'C:\\temp\\new'), ('str', 'two\nlines'),
-               ('str', 'trailing\\'), ('str', "apos'trophe"), ('str', 'caf\u00e9'), ('lit', "'ff00'H"), ('lit', "''H"), ('lit', "'0a0B'h"),
+               ('str', 'trailing\\'), ('str', "apos'trophe"), ('str', 'caf\u00e9'), ('str', 'first\r\nsecond'), ('str', 'bare\rcr'), ('lit', "'ff00'H"), ('lit', "''H"), ('lit', "'0a0B'h"),
                ('lit', "'0000000100000001'B"), ('lit', "'11111111'B"), ('lit', "''B")],
     'oid': [('id', 'ctxRoot', 'oid'), ('id', 'zeroDotZero', 'oid'), ('id', 'remoteNode', 'oid')],
     'bits': [('bits', ['flagA']), ('bits', ['flagB', 'flag-c']), ('bits', ['flag-c', 'flagA', 'flagB']), ('bits', [])],
@@ -601,6 +604,31 @@ class ShoutedNames(object):
         return 'x', vs, 2
 
 
+class DefaultsFromFiles(object):
+    name = 'defaults-from-files'
+    describe = ('the string DEFVAL cases (incl. values spanning CR LF / bare CR line ends, tabs, non-ASCII) of the octet-string types, '
+                'inline and through one derived type, with the module texts written to a directory / ZIP archive and read back by '
+                'the real FileReader / ZipReader')
+
+    def blocks(self, tier):
+        return [{'b': i, 'source': src} for i, b in enumerate(BASES) if b[2] == 'octets' for src in ('files', 'zip')]
+
+    def cases(self, block, tier):
+        label, syn, prim = BASES[block['b']]
+        for shape in ([], ['T'], ['C']):
+            for di, dv in enumerate(DEFVALS[prim]):
+                if dv[0] == 'str':
+                    yield {'b': block['b'], 'shape': shape, 'dv': di, 'source': block['source']}
+
+    def run_case(self, case):
+        _SOURCE[0] = case['source']
+        try:
+            outcome, vs, steps = Defaults().run_case(case)
+        finally:
+            _SOURCE[0] = 'memory'
+        return outcome, [(sig + '|read-from-' + case['source'], detail) for sig, detail in vs], steps
+
+
 class SameNamedTypes(object):
     name = 'same-named-types'
     describe = ('TEST-MIB and REMOTE-MIB each define a type called Mode with DIFFERENT base types, each with an object of that type '
@@ -663,4 +691,4 @@ class SameNamedTypes(object):
         return repr(outcome), vs, 2
 
 
-FAMILIES = [Refinements(), Defaults(), SameNamedTypes(), RefinedChains(), ShoutedNames()]
+FAMILIES = [Refinements(), Defaults(), SameNamedTypes(), RefinedChains(), ShoutedNames(), DefaultsFromFiles()]
